@@ -61,6 +61,16 @@ class PieceStr:
         return self
 
     def pyvc_eq(self, I, o):
+        from .regex import RegStr, lang_of, nonempty
+        if isinstance(o, RegStr):
+            o = PieceStr([o])
+        if isinstance(o, PieceStr):
+            if len(o.parts) == len(self.parts) and all((a is b) or (isinstance(a, str) and a == b) for a, b in zip(self.parts, o.parts)):
+                return True
+            ok, _ = nonempty(core.z3.Intersect(lang_of(self), lang_of(o)))
+            if ok is False:
+                return False
+            return core.CUR.choose(2) == 0        # two unrelated strings of overlapping languages may or may not be equal
         if isinstance(o, str):
             c = self.concrete()
             if c is not None:
